@@ -444,12 +444,14 @@ func checkIdentityVersionEntry(c *Ctx) {
 		return
 	}
 	wOK := false
-	for _, b := range cm.Blocks {
-		for _, ins := range b.Instrs {
-			if st, isSt := ins.(*ssa.Store); isSt {
-				if fa, isFA := st.Addr.(*ssa.FieldAddr); isFA && fieldName(fa) == "Name" {
-					if s, isS := constString(st.Val); isS && s == name {
-						wOK = true
+	for _, f := range fnAndHelpers(cm, 2) {
+		for _, b := range f.Blocks {
+			for _, ins := range b.Instrs {
+				if st, isSt := ins.(*ssa.Store); isSt {
+					if fa, isFA := st.Addr.(*ssa.FieldAddr); isFA && fieldName(fa) == "Name" {
+						if s, isS := constString(st.Val); isS && s == name {
+							wOK = true
+						}
 					}
 				}
 			}
